@@ -13,6 +13,8 @@ import FqModel.Proto
                                  goroutines), procrep
       hash = first 8 bytes of SHA-256 of (stdout, 0, stderr, 0, error) in hex `/` length
 
+  `sweep <format> <path>…` TAB `<mode>:<k>:<hash>…`   see stepSweep.
+
   The property predicate, evaluated on the implementation's observation: every job has exactly one
   reference, there is at least one run per job, and EVERY run of job k has the hash of its reference.
   (What the model predicts — FqModel/Isolation.lean, `interleaving_result_eq_alone` — is the same
@@ -42,8 +44,28 @@ def refKind (t : Tok) : String := if t.mode.startsWith "hammer" then "rt" else "
 def lookupRef (refs : List Tok) (kind : String) (k : Nat) : Option String :=
   (refs.find? (fun t => t.mode == kind && t.k == k)).map (·.hash)
 
+/-- `sweep <format> <path>…` TAB `<mode>:<k>:<hash>…` (modes first, rep1, rep2 = three decodes in a row in one
+    process; other = a second process, reverse order; conc = a third process, 8 goroutines):
+    all hashes of sample k must be equal, and every sample needs the three sequential decodes. -/
+def stepSweep (paths : List String) (obs : String) : String :=
+  match (words obs).mapM parseTok with
+  | none => "BADOP obs"
+  | some toks =>
+    let n := paths.length
+    if n == 0 then "BADOP no-samples"
+    else if toks.any (fun t => t.k ≥ n) then "BADOP sample number out of range"
+    else if (List.range n).any (fun k => ["first", "rep1", "rep2"].any (fun m => !(toks.any (fun t => t.k == k && t.mode == m)))) then
+      "BADOP a sample lacks its three sequential decodes"
+    else
+      match toks.find? (fun t => toks.any (fun u => u.k == t.k && u.mode == "first" && u.hash != t.hash)) with
+      | some t =>
+        let f := ((toks.find? (fun u => u.k == t.k && u.mode == "first")).map (·.hash)).getD "?"
+        s!"PROPFAIL sample#{t.k} {paths.getD t.k "?"}: decode `{t.mode}` gave {t.hash}, the first decode in a process gave {f}"
+      | none => "OK"
+
 def stepC18 (op obs : String) : String :=
   match words op with
+  | "sweep" :: _format :: paths => stepSweep paths obs
   | kind :: seed :: jobs =>
     if kind != "trial" && kind != "procrep" then "BADOP op"
     else if !seed.startsWith "seed=" then "BADOP seed"
